@@ -35,8 +35,24 @@ CHECKS = {
  ),
 }
 
+CHECKS["C05"] = dict(
+   level="fault_enumeration",
+   text="Typed value trees drawn model-first (every serde data-model entry point, strings placed 0..40 bytes before an unmapped page) are serialized compact and pretty through every supported writer stack (to_string/to_vec, &mut Vec, Box, BytesMut writers, BufferedWriter, io::BufWriter with several capacities, a user WriteExt whose reserved window ends at an unmapped page, and nestings). Fault-free output must equal the reference rendering byte for byte (float tokens by value), be valid UTF-8 and well-formed JSON, and pretty must equal compact re-indented. Under an injected writer fault (permanent error or Ok(0) after n bytes, error at call c, reserve_with/flush_len error; transient short writes and EINTR on top) the call must return Err and the bytes the sink accepted must be a prefix of the correct output. Quick: one drawn fault point per run; thorough: every byte offset and call index enumerated per value for every fault kind.",
+   design_ref="DESIGN.md section 3 (C05), section 2.5",
+   note="Trusted: the reference escaper/re-indenter (self-tested), std io::BufWriter, bytes, itoa, ryu (float spelling is compared by value only). Exhaustive over fault positions per generated value, sampled over values. Hash-ordered (mutated) objects are not embedded.",
+   technique="deterministic simulation: fault-injecting writer seams (short write, EINTR, permanent error, Ok(0), reserve/flush_len failure) with guard pages; seeded values, enumerated fault positions",
+   engine="dsim io",
+)
+CHECKS["C16"] = dict(
+   level="exploration",
+   text="Seeded search over operation histories and schedules: 1-3 simulated caller threads (real OS threads with their real thread-local node buffer, serialised by a baton scheduler driven by one choice stream) parse documents by seven routes, run several values through one deserializer or stream, clone roots and subtrees, take children out, insert values into other documents, mutate, send values to other threads and drop everything in drawn orders, with a context switch possible before every arena reference-count operation. Oracles: every read of every survivor equals its model (freed memory is poisoned and quarantined, so a premature release cannot pass), the simulated heap reports any double/invalid/wrong-layout free, write-after-free, overflow or leak, and the number of live arenas (hook events) never exceeds the number of documents/deserializers that can still be referenced and returns to zero at the end.",
+   design_ref="DESIGN.md section 3 (C16), sections 2.2-2.4",
+   note="Trusted: std Arc, bumpalo, the System allocator under the ledger. Native only (Miri cannot execute the arena DOM), so memory errors are seen through the simulated heap rather than an abstract machine; weak-memory effects inside Arc are out of reach of a serialising scheduler. Small documents, <= 3 threads, <= 40 operations per thread.",
+   technique="deterministic simulation: seeded histories + schedules over real threads (baton scheduler), simulated heap with poison/quarantine/leak ledger, arena conservation invariant from hook events",
+   engine="dsim arena",
+)
+
 PENDING = {
- "C05": "check under construction in this session (planned: claimed, fault_enumeration over writer fault sequences)",
  "C13": "check under construction in this session (planned: claimed, exploration over operation histories)",
  "C15": "check under construction in this session (planned: claimed, exploration over operation histories)",
  "C16": "check under construction in this session (planned: claimed, exploration over histories and schedules)",
